@@ -14,8 +14,10 @@ RULE = ("boards: every board with <= 3 tiles (quick) / <= 4 tiles (thorough) ove
         "1x1, 1xk, kx1, kxk x probabilities 0.01/0.5/0.99 x force-down on/off, and the manual entry point. "
         "non-trivial = board with >= 2 tiles; distinct by (board, probabilities). In the thorough tier one in %d of the "
         "4-tile boards also goes through the Coq model, all go through the implementation and the predicates; "
-        "solving (pruned first, unpruned only after a pruned success, as run_games does): quick = every board with <= 2 tiles, one in 8 "
-        "of the 3-tile boards, all random, command-line and manual inputs; thorough = all of these and one in 16 of the "
+        "quick tier budget: every board goes through the implementation and the predicates, every board with <= 2 tiles and "
+        "one in 4 of the 3-tile boards through the Coq model (C08 runs the same correspondence on all of them). "
+        "solving (pruned first, unpruned only after a pruned success, as run_games does): quick = every board with <= 2 tiles, one in 32 "
+        "of the 3-tile boards, all random, command-line and manual inputs; thorough = every board with <= 3 tiles and one in 32 of the "
         "4-tile boards; limit 60 s per solve (300 s for the larger boards) on inputs that pass the termination guard "
         "(no rewarded end component in the conditioned graph, computed from the input), 4 s and outcome only counted on the others." % bc.FOUR_TILE_MODEL_EVERY)
 ASSUMPTIONS = ["the text layer (str(dict) + .replace, eval) is not modelled: the file read back is compared with the model's games on every generated input, and eval is compared with ast.literal_eval on the unmodified text",
@@ -292,7 +294,8 @@ def known_witnesses(ctx):
 
 
 def keep_for_solving(ctx, batch):
-    """(src, case, model) -> (src, case, model, keep_games): which boards are solved (budget)"""
+    """(src, case, model) -> (src, case, model, keep_games): which boards are solved, and (quick tier only) which of
+    the 3-tile boards also go through the Coq model - C08 runs the same correspondence on all of them"""
     out = []
     k3 = k4 = 0
     for src, c, m in batch:
@@ -301,7 +304,8 @@ def keep_for_solving(ctx, batch):
             if c["L"] * c["W"] <= 2 or not ctx.quick:
                 keep = True
             else:
-                keep = (k3 % 8 == 0)
+                keep = (k3 % 32 == 0)
+                m = (k3 % 4 == 0)
                 k3 += 1
         elif src == "exh4":
             keep = (k4 % 32 == 0)
